@@ -46,6 +46,6 @@ def main():
         else:
             print("ok   %s%s" % (short, (" (open: %s)" % open_sites) if open_sites else ""))
     print("engine selftest: %d cases, %d failures" % (n, bad))
-    return 1 if bad or n < 39 else 0
+    return 1 if bad or n < 42 else 0
 
 sys.exit(main())
